@@ -269,7 +269,9 @@ func (vc *VC) havoc(fr *Frame, st *State, ms *ModSet, why string) {
 	for a := range ms.cells {
 		as = append(as, a)
 	}
-	sort.Slice(as, func(i, j int) bool { return as[i].Pos() < as[j].Pos() || (as[i].Pos() == as[j].Pos() && as[i].Name() < as[j].Name()) })
+	sort.Slice(as, func(i, j int) bool {
+		return as[i].Pos() < as[j].Pos() || (as[i].Pos() == as[j].Pos() && as[i].Name() < as[j].Name())
+	})
 	if ms.alloc {
 		na := vc.fresh("alloc", "Int")
 		vc.assume("(>= " + na + " " + st.alloc + ")")
@@ -613,32 +615,39 @@ func tupleOrSingle(t types.Type, vals []*Val) *Val {
 }
 
 func (vc *VC) callFunc(fr *Frame, st *State, x *ssa.Call, callee *ssa.Function, args []*Val, binds []*Val) *Val {
-	rt := x.Type()
-	// cut points placed before this call by the contract of the function under proof
+	// cut points placed around this call by the contract of the function under proof
 	if fr.depth == 0 && fr.con != nil && len(fr.con.Asserts) > 0 {
 		nm := fnDisplayName(callee)
-		if i := strings.LastIndex(nm, "."); i >= 0 && fr.con.Asserts[nm+"#0"] == nil {
-			// allow the short method name too
-			_ = i
-		}
 		k := fr.idxN["assertsite:"+nm]
 		fr.idxN["assertsite:"+nm] = k + 1
-		for _, key := range []string{fmt.Sprintf("%s#%d", nm, k), fmt.Sprintf("%s#%d", nm[strings.LastIndex(nm, ".")+1:], k)} {
-			for _, c := range fr.con.Asserts[key] {
-				env := vc.loopEnvAt(fr, st)
-				for n, v := range fr.specVars {
-					env.vars[n] = v
+		keys := []string{fmt.Sprintf("%s#%d", nm, k), fmt.Sprintf("%s#%d", nm[strings.LastIndex(nm, ".")+1:], k)}
+		cut := func(prefix string) {
+			for _, key := range keys {
+				for _, c := range fr.con.Asserts[prefix+key] {
+					env := vc.loopEnvAt(fr, st)
+					for n, v := range fr.specVars {
+						env.vars[n] = v
+					}
+					g, err := env.evalBool(c.E)
+					if err != nil {
+						vc.oblige(st, "spec-error", "assert/"+c.Name, "false", c.Pos, err.Error())
+						continue
+					}
+					vc.oblige(st, "assert", c.Name, g, c.Pos, c.Src)
+					vc.assume(implies(st.reach, g))
 				}
-				g, err := env.evalBool(c.E)
-				if err != nil {
-					vc.oblige(st, "spec-error", "assert/"+c.Name, "false", c.Pos, err.Error())
-					continue
-				}
-				vc.oblige(st, "assert", c.Name, g, c.Pos, c.Src)
-				vc.assume(implies(st.reach, g))
 			}
 		}
+		cut("")
+		r := vc.callFunc2(fr, st, x, callee, args, binds)
+		cut("after ")
+		return r
 	}
+	return vc.callFunc2(fr, st, x, callee, args, binds)
+}
+
+func (vc *VC) callFunc2(fr *Frame, st *State, x *ssa.Call, callee *ssa.Function, args []*Val, binds []*Val) *Val {
+	rt := x.Type()
 	if con := vc.eng.contractOf(callee); con != nil && !(fr.depth == 0 && false) {
 		return vc.callByContract(fr, st, x, callee, con, args)
 	}
@@ -1056,6 +1065,17 @@ func rangeLimit(fr *Frame, li *loopInfo) ssa.Value {
 // state st are visible ($idx#N) together with the frame's locals.
 func (vc *VC) loopEnvAt(fr *Frame, st *State) *Env {
 	env := &Env{vc: vc, st: st, old: fr.entry, vars: map[string]*Val{}, fr: fr, vis: map[string]*Val{}, idxBy: map[int]*Val{}}
+	// visited sets of the live map ranges: visited#N(k); visited(k) is the one with the highest ordinal
+	best := -1
+	for r, rs := range fr.rangeOf {
+		if v, ok := st.cells[rs.visCell]; ok {
+			env.vis[fmt.Sprint(fr.rangeOrd[r])] = v
+			if fr.rangeOrd[r] > best {
+				best = fr.rangeOrd[r]
+				env.vis[""] = v
+			}
+		}
+	}
 	for _, l := range fr.loops {
 		for _, ins := range l.head.Instrs {
 			if s, ok := ins.(*ssa.Store); ok {
